@@ -2,6 +2,7 @@ package worlds
 
 import (
 	"context"
+	"errors"
 	"fmt"
 	"sort"
 	"strings"
@@ -89,17 +90,44 @@ func toOutputs(specs []OutputSpec) []controller.Output {
 type RuntimeOpts struct {
 	Cached  []string `json:"cached,omitempty"` // resource types (ns1) served from the runtime cache
 	Metrics bool     `json:"metrics,omitempty"`
+	// ListFaults: the first N List calls the runtime and its controllers issue against the state fail with a
+	// transient error (fault injection at the state seam)
+	ListFaults int `json:"list_faults,omitempty"`
+}
+
+var errListFault = errors.New("transient list failure (injected)")
+
+// faultyState fails the first n List calls.
+type faultyState struct {
+	state.State
+	left *int
+	out  *Outcome
+}
+
+func (f faultyState) List(ctx context.Context, kind resource.Kind, opts ...state.ListOption) (resource.List, error) {
+	if *f.left > 0 {
+		*f.left--
+		if f.out != nil {
+			f.out.fault("state-list-error")
+		}
+		simrt.Yield("faulty-list")
+		return resource.List{}, errListFault
+	}
+	return f.State.List(ctx, kind, opts...)
 }
 
 // RuntimeWorld is a store plus a controller runtime.
 type RuntimeWorld struct {
 	*StoreWorld
-	RT          *runtime.Runtime
-	RunReturned bool
-	RunErr      error
-	RunRetStep  int64
-	RunRetLog   int
-	Logs        *observer.ObservedLogs // error-level log entries of the runtime and its controllers
+	RT             *runtime.Runtime
+	RunReturned    bool
+	RunErr         error
+	RunRetStep     int64
+	RunRetLog      int
+	Logs           *observer.ObservedLogs // error-level log entries of the runtime and its controllers
+	FaultMode      bool
+	FaultOut       *Outcome
+	listFaultsLeft int
 }
 
 // ErrorLogs renders the distinct error-level log messages (controller failures etc.).
@@ -135,15 +163,24 @@ func (w *RuntimeWorld) ErrorLogs(max int) []string {
 }
 
 // NewRuntimeWorld builds the runtime (inside the bubble).
-func NewRuntimeWorld(variant string, h HistCfg, ro RuntimeOpts) (*RuntimeWorld, error) {
+func NewRuntimeWorld(variant string, h HistCfg, ro RuntimeOpts, outs ...*Outcome) (*RuntimeWorld, error) {
 	w := &RuntimeWorld{StoreWorld: NewStoreWorld(variant, h)}
+	if len(outs) > 0 {
+		w.FaultOut = outs[0]
+	}
 	opts := []options.Option{options.WithMetrics(ro.Metrics)}
 	for _, t := range ro.Cached {
 		opts = append(opts, options.WithCachedResource("ns1", t))
 	}
 	core, logs := observer.New(zapcore.ErrorLevel)
 	w.Logs = logs
-	rt, err := runtime.NewRuntime(w.St, zap.New(core), opts...)
+	var rtState state.State = w.St
+	if ro.ListFaults > 0 {
+		w.listFaultsLeft = ro.ListFaults
+		w.FaultMode = true
+		rtState = faultyState{State: w.St, left: &w.listFaultsLeft, out: w.FaultOut}
+	}
+	rt, err := runtime.NewRuntime(rtState, zap.New(core), opts...)
 	if err != nil {
 		return nil, err
 	}
@@ -179,6 +216,7 @@ type ProbeSpec struct {
 	RegisterMs  int          `json:"register_ms,omitempty"` // <0: before Run; else virtual ms after start
 	MoreAt      int          `json:"more_at,omitempty"`     // plain: call UpdateInputs(Inputs+More) at this reconcile
 	More        []InputSpec  `json:"more,omitempty"`
+	KindChange  string       `json:"kind_change,omitempty"` // plain: at MoreAt, re-declare Inputs[0] with this kind
 }
 
 // Probe is the running state of a probe controller.
@@ -249,8 +287,12 @@ func (p *Probe) Run(ctx context.Context, r controller.Runtime, _ *zap.Logger) er
 		}
 		p.Reconciles++
 		seq := p.Reconciles
-		if p.Spec.MoreAt > 0 && seq == p.Spec.MoreAt && len(p.Spec.More) > 0 {
+		if p.Spec.MoreAt > 0 && seq == p.Spec.MoreAt && (len(p.Spec.More) > 0 || p.Spec.KindChange != "") {
 			p.curInputs = append(append([]InputSpec{}, p.Spec.Inputs...), p.Spec.More...)
+			if p.Spec.KindChange != "" {
+				p.curInputs[0].Kind = p.Spec.KindChange
+				delete(p.LastObs, p.Spec.Inputs[0].key())
+			}
 			if err := r.UpdateInputs(toInputs(p.curInputs)); err != nil {
 				p.ReadErrs = append(p.ReadErrs, "UpdateInputs: "+err.Error())
 			}
@@ -262,6 +304,9 @@ func (p *Probe) Run(ctx context.Context, r controller.Runtime, _ *zap.Logger) er
 			if err != nil {
 				if ctx.Err() != nil {
 					return nil
+				}
+				if p.w.FaultMode && errors.Is(err, errListFault) {
+					return err // a real controller fails its run on a read error and is restarted
 				}
 				p.ReadErrs = append(p.ReadErrs, fmt.Sprintf("read %s: %v", in.key(), err))
 				continue
@@ -331,6 +376,9 @@ func (p *Probe) Reconcile(ctx context.Context, _ *zap.Logger, r controller.QRunt
 		if ctx.Err() != nil {
 			return nil
 		}
+		if p.w.FaultMode && errors.Is(err, errListFault) {
+			return err
+		}
 		p.ReadErrs = append(p.ReadErrs, fmt.Sprintf("read primary %s: %v", key, err))
 	} else {
 		o.Seq = seq
@@ -349,6 +397,9 @@ func (p *Probe) Reconcile(ctx context.Context, _ *zap.Logger, r controller.QRunt
 			if err != nil {
 				if ctx.Err() != nil {
 					return nil
+				}
+				if p.w.FaultMode && errors.Is(err, errListFault) {
+					return err
 				}
 				p.ReadErrs = append(p.ReadErrs, fmt.Sprintf("read mapped %s/%s: %v", in.Type, mid, err))
 				continue
